@@ -372,6 +372,14 @@ def builtin_call(self, name, n, env):
         if fc is None:
             raise E.Unsupported("print() without an environment contract in this unit")
         return self.library_call(fc, n, env)
+    if name == "range":
+        a = [self.ev(x, env) for x in n.args]
+        lo, hi = (z3.IntVal(0), a[0].t) if len(a) == 1 else (a[0].t, a[1].t)
+        if len(a) > 2:
+            raise E.Unsupported("range with a step")
+        v, ax = ops.seq_range(lo, hi)
+        self.assume(*ax)
+        return v
     if name == "dict":
         if not n.args:
             return V(None, MapS(NONE, NONE))
